@@ -245,8 +245,10 @@ func scenarios() map[string]func(seed uint64, nG, iters int) {
 			{"SetLimit", func(r *rand.Rand) { st.SetLimit(r.IntN(12)) }},
 			{"Limit", func(*rand.Rand) { _ = st.Limit() }},
 			{"BusyCount", func(*rand.Rand) { _ = st.BusyCount() }},
-			{"BinBusyCount", func(r *rand.Rand) { _, _ = st.BinBusyCount(r.IntN(2)) }},
-			{"BinLimit", func(r *rand.Rand) { _, _ = st.BinLimit(r.IntN(2)) }},
+			// index 2 is the partition that comes and goes, 3 and 4 are never valid: an index that is (no longer) valid is
+			// answered with the accessor's error
+			{"BinBusyCount", func(r *rand.Rand) { _, _ = st.BinBusyCount(r.IntN(5)) }},
+			{"BinLimit", func(r *rand.Rand) { _, _ = st.BinLimit(r.IntN(5)) }},
 			{"String", func(*rand.Rand) { keep(st.String()) }},
 			{"AddPartition", func(*rand.Rand) {
 				st.AddPartition(strategy.NewPredicatePartitionWithMetricRegistry("c", 0.1, matchers.StringPredicateMatcher("c", false), core.EmptyMetricRegistryInstance))
